@@ -74,7 +74,7 @@ theorem aonly_removeC {conf : Conf} {c : Chan} (h : AOnly conf c) (k : Nat) :
     AOnly conf { c with clients := removeC c.clients k } :=
   ⟨h.1, h.2.1, fun cl hcl => h.2.2 cl (mem_removeC.1 hcl).1⟩
 
-theorem aonly_put (conf : Conf) {c : Chan} (h : InvA conf c) (id : Nat) : AOnly conf (step conf c (.put id)).1 := by
+theorem aonly_put (conf : Conf) {c : Chan} (h : InvA conf c) (id : Nat) (env : Env) : AOnly conf (step conf c (.put id env)).1 := by
   simp only [step]
   split
   · exact h.aonly
@@ -82,7 +82,7 @@ theorem aonly_put (conf : Conf) {c : Chan} (h : InvA conf c) (id : Nat) : AOnly 
     simp only [bne_iff_ne, ne_eq, Bool.or_eq_true, not_or, Decidable.not_not, Bool.not_eq_true] at hcond
     have hnone := status_none_of_nFanout_zero h.inv.okh hcond.1
     have hfresh := not_mem_of_status_none h.inv.core hnone
-    refine invA_enqueue (e := ⟨id, 0, .queued⟩) ?_ ?_ rfl rfl ?_ ?_ ?_
+    refine invA_enqueue (e := { id := id, att := 0, loc := .queued, env := env }) ?_ ?_ rfl rfl ?_ ?_ ?_
     · simp only [List.map_cons, List.nodup_cons, List.mem_map, not_exists, not_and]
       exact ⟨fun e he hid => hfresh e he hid, h.inv.core.nodup⟩
     · exact List.mem_cons_self
@@ -90,8 +90,8 @@ theorem aonly_put (conf : Conf) {c : Chan} (h : InvA conf c) (id : Nat) : AOnly 
     · exact okHist3_cons_other (by simp [okEv3]) h.okh3
     · exact clA_frame (fun k => by simp [heldBy, List.countP_cons, heldByE]) (fun k => by simp [nFinBy]) h.clA
 
-theorem aonly_putDeferred (conf : Conf) {c : Chan} (h : InvA conf c) (id : Nat) (pri : Int) :
-    AOnly conf (step conf c (.putDeferred id pri)).1 := by
+theorem aonly_putDeferred (conf : Conf) {c : Chan} (h : InvA conf c) (id : Nat) (pri : Int) (env : Env) :
+    AOnly conf (step conf c (.putDeferred id pri env)).1 := by
   simp only [step]
   split
   · exact h.aonly
@@ -437,8 +437,8 @@ theorem step_invA (conf : Conf) (hconf : 0 ≤ conf.maxRdy) {c : Chan} (h : InvA
   | finClient k => cases hat
   | guard k => cases hat
   | deliverArmed k id now => cases hat
-  | put id => exact InvA.of (step_inv conf h.inv _) (aonly_put conf h id)
-  | putDeferred id pri => exact InvA.of (step_inv conf h.inv _) (aonly_putDeferred conf h id pri)
+  | put id env => exact InvA.of (step_inv conf h.inv _) (aonly_put conf h id env)
+  | putDeferred id pri env => exact InvA.of (step_inv conf h.inv _) (aonly_putDeferred conf h id pri env)
   | addClient k mt sm => exact InvA.of (step_inv conf h.inv _) (aonly_addClient conf hconf h k mt sm)
   | removeClient k =>
     refine InvA.of (step_inv conf h.inv _) ?_
